@@ -54,6 +54,17 @@ def R1_decision_table(ctx):
                 return False
             holds = (t == "eq") == (c[0] == "Eq")
             return holds == cond_truth(label)
+        # target.map_or(false, |t| popped == t) / target.is_some_and(|t| popped == t)
+        if d[0] == "call" and re.search(r"Option::<T>::(map_or|is_some_and)$", d[1]) and d[2] and d[2][0] == tgt and d[2][-1][0] == "closure" and d[2][-1][1] in ctx.F.bodies:
+            dflt_ok = d[1].endswith("is_some_and") or (len(d[2]) == 3 and d[2][1] == ("const", "bool", False))
+            cl = d[2][-1]
+            crt = nosite(deep_strip(Terms(ctx.F.bodies[cl[1]]).return_term()))
+            crt = rewrite(crt, lambda y: nosite(deep_strip(cl[2][int(y[2])])) if y[0] == "field" and y[1] == ("arg", 1) and str(y[2]).isdigit() and int(y[2]) < len(cl[2]) else None)
+            cc = as_cmp(crt)
+            if dflt_ok and cc and cc[0] == "Eq" and {cc[1], cc[2]} == {popped_v, ("arg", 2)}:
+                if q != "Some":
+                    return False
+                return (t == "eq") == cond_truth(label)
         if d[0] == "call" and re.search(r"Option<.*> as std::cmp::PartialEq(<.*>)?>::(eq|ne)$", d[1]) and len(d[2]) == 2:
             some_popped = ("agg", "std::option::Option", "Some", (("0", popped_v),))
             if set(d[2]) == {tgt, some_popped}:
@@ -178,6 +189,10 @@ def R3_route_or_error(ctx):
     tmv = Terms(rv)
     bts = rv.calls_to(astar.A + "backtrack::vertex_oriented_route")
     ras = rv.calls_to(astar.RUN)
+    if len(bts) == 0 and len(ras) == 1:
+        # `dst_opt.map(|dst| backtrack(src, dst, &tree)).transpose()?`: the same thing with the Option adaptor
+        _backtrack_adaptor_form(ctx, F, rv, tmv, ras[0])
+        return
     if len(bts) != 1 or len(ras) != 1:
         raise AnchorMissing("run_vertex_oriented: backtrack/run_a_star calls (%d/%d)" % (len(bts), len(ras)))
     bt, ra = bts[0], ras[0]
@@ -197,6 +212,38 @@ def R3_route_or_error(ctx):
             if rv.dominates(st, bt.bb) and bb in rv.dom.get(bt.bb, ()):
                 good = True
     ctx.check(good, "backtrack-when-destination", "backtrack is not performed exactly under `destination is Some`", bt.where())
+
+
+def _backtrack_adaptor_form(ctx, F, rv, tmv, ra):
+    pr = try_propagation(rv, ra, tmv)
+    ctx.check(pr["kind"] == "propagated", "search-error-propagated", "the Err of run_a_star is not propagated: %s" % pr["detail"], ra.where())
+    found = None
+    for cb in tree_of(F, rv.path):
+        if cb is rv:
+            continue
+        cs = cb.calls_to(astar.A + "backtrack::vertex_oriented_route")
+        if len(cs) == 1:
+            found = (cb, cs[0])
+    if found is None:
+        raise AnchorMissing("run_vertex_oriented: no backtrack call in the function or its closures")
+    cb, bt = found
+    ctm = Terms(cb)
+    mps = [c for c in rv.calls() if c.callee and re.search(r"Option::<T>::map$", c.callee) and len(c.args) == 2 and tmv.operand(c.args[1], c.bb)[0] == "closure" and tmv.operand(c.args[1], c.bb)[1] == cb.path]
+    if not ctx.check(len(mps) == 1 and clean(tmv.operand(mps[0].args[0], mps[0].bb)) == ("arg", 3), "backtrack-when-destination", "backtrack is not performed exactly under `destination is Some` (expected destination.map(|dst| backtrack(..)))", bt.where()):
+        return
+    mp = mps[0]
+    caps = [clean(x) for x in tmv.operand(mp.args[1], mp.bb)[2]]
+    sub = lambda t: rewrite(clean(t), lambda y: ("arg", 3) if y == ("arg", 2) else (caps[int(y[2])] if y[0] == "field" and y[1] == ("arg", 1) and str(y[2]).isdigit() and int(y[2]) < len(caps) else None))
+    args = [sub(ctm.operand(x, bt.bb)) for x in bt.args]
+    sr = clean(tmv.call_term(ra.term, ra.bb))
+    ok = args[0] == ("arg", 2) and args[1] == ("arg", 3) and args[2] == ("field", sr, "tree")
+    ctx.check(ok, "backtrack-args", "backtrack is not called with (source, destination, tree of this search): %s" % [short(x) for x in args], bt.where(), detail=[short(x) for x in args])
+    # the Err leaves the closure as its value, is turned inside out by transpose() and propagated by `?`
+    okr = clean(ctm.return_term()) == clean(ctm.call_term(bt.term, bt.bb))
+    mt = tmv.call_term(mp.term, mp.bb)
+    trs = [c for c in rv.calls() if c.callee and re.search(r"Option::<.*>::transpose$|Option::<T>::transpose$", c.callee) and tmv.operand(c.args[0], c.bb) == mt]
+    okr = okr and len(trs) == 1 and try_propagation(rv, trs[0], tmv)["kind"] == "propagated"
+    ctx.check(okr, "backtrack-error-propagated", "the Err of backtrack is not propagated (closure value -> transpose -> ?)", bt.where())
 
 
 def R4_response(ctx):
